@@ -480,6 +480,12 @@ class EriOrbenergy:
                         cancelled_result += \
                             pref * self.eri * num / multiply(denom)
                     break
+            else:
+                # all brackets have been tried, but the numerator could not
+                # be cancelled completely -> keep the remaining fraction
+                if cancelled_result is not None:
+                    cancelled_result += \
+                        pref * self.eri * num / multiply(denom)
             # return just the term if it was not possible to successfully
             # cancel any bracket
             return self.expr if cancelled_result is None else cancelled_result
